@@ -12,6 +12,7 @@ package main
 
 import (
 	"bytes"
+	"encoding/binary"
 	"fmt"
 	"math"
 	"math/big"
@@ -548,9 +549,27 @@ func genCase(h *verifx.H, r *verifx.Rng) caseSpec {
 	return sp
 }
 
+// siblingPatterns: positions (a for the first row, b for the second; -1 = value not used) of the same string-tag values
+var siblingPatterns = []struct {
+	vals [2]string
+	a, b [2]int
+}{
+	{[2]string{"a", "x1"}, [2]int{1, 3}, [2]int{2, 3}},    // gap moves, last set position unchanged
+	{[2]string{"a", "x1"}, [2]int{1, 5}, [2]int{1, 4}},    // last one shifted down
+	{[2]string{"a", ""}, [2]int{0, -1}, [2]int{1, -1}},    // single value, first slot vs second
+	{[2]string{"x1", ""}, [2]int{46, -1}, [2]int{47, -1}}, // last array slots
+	{[2]string{"bc", "a"}, [2]int{0, 2}, [2]int{1, 2}},    // "bc" is mapped by the aggregator: moves into Tags[0] vs Tags[1]
+	{[2]string{"a", "a"}, [2]int{2, 3}, [2]int{2, 4}},     // equal values
+}
+
 // corpus: minimised past failures (run first by checks/C02.py with -mode=corpus)
 func corpus() [][]caseSpec {
 	k := func(metric int32) data_model.Key { return data_model.Key{Metric: metric, Timestamp: bucketTs} }
+	ks := func(metric int32, i, j int) data_model.Key {
+		key := data_model.Key{Metric: metric, Timestamp: bucketTs}
+		key.STags[i], key.STags[j] = "a", "x1"
+		return key
+	}
 	val := func(top tag, v float64) evSpec { return evSpec{kind: 'v', top: top, vals: []float64{v}} }
 	return [][]caseSpec{
 		// F1: one counter-only event + one value event 7: compact form dropped the sum, aggregator derived 7*2
@@ -572,6 +591,10 @@ func corpus() [][]caseSpec {
 			{key: k(303), sf: 1, aggHost: tag{I: 1000}, events: []evSpec{val(tag{}, 5)}}},
 		// string-top capacity 3, four distinct keys: MapStringTop resamples and folds evicted entries into Tail
 		{{key: k(401), noSample: true, sf: 2, cap: 3, aggHost: tag{I: 1000}, events: []evSpec{val(tag{S: "a"}, 1), val(tag{S: "b"}, 2), val(tag{S: "c"}, 3), val(tag{S: "d"}, 4), val(tag{S: "e"}, 5)}}},
+		// two rows that differ only in the POSITION of equal string-tag values must stay two rows (seeded C02-r5-1 shape),
+		// and their string-top keys must not alias the receive buffer (seeded C02-r5-2 shape)
+		{{key: ks(404, 1, 3), noSample: true, sf: 1, aggHost: tag{I: 1000}, events: []evSpec{val(tag{S: "checkout"}, 1), val(tag{}, 2)}},
+			{key: ks(404, 2, 3), noSample: true, sf: 1, aggHost: tag{I: 1000}, events: []evSpec{val(tag{S: "eu"}, 3), val(tag{}, 4)}}},
 		// raw int32 string-top keys incl. negative ones next to a string key: every key must arrive as itself (seeded C02-r4-2 shape)
 		{{key: k(403), noSample: true, sf: 2, aggHost: tag{I: 1000}, events: []evSpec{val(tag{I: -1}, 1), val(tag{I: math.MinInt32}, 2), val(tag{S: "a"}, 3), val(tag{}, 4)}}},
 		// sampler path, five string tops, StringTopCountSend = 3: FinishStringTop folds the two smallest into Tail
@@ -644,7 +667,11 @@ func runBucket(h *verifx.H, r *verifx.Rng, sh *agent.VerifC02Shard, agg *aggrega
 			EffectiveResolution: 1, EffectiveWeight: 1}
 		h.Op("key %d %d %d %s %s", key.Metric, key.Timestamp, bucketTs, sparseInts(key.Tags[:]), sparseStrs(key.STags[:]))
 		h.Obs("key %s", keyStr(&key))
-		item, _ := bucket.GetOrCreateMultiItem(&key, meta, nil)
+		h.Obs("%s", marshalledStr(&key))
+		item, created := bucket.GetOrCreateMultiItem(&key, meta, nil)
+		if !created {
+			h.Viol("rows-merged-distinct-keys", "agent bucket: key {%s} got the MultiItem of an earlier, different key of this bucket", keyStr(&key))
+		}
 		c.item = item
 		for _, e := range sp.events {
 			c.applyEvent(e)
@@ -675,32 +702,74 @@ func runBucket(h *verifx.H, r *verifx.Rng, sh *agent.VerifC02Shard, agg *aggrega
 		h.Obs("tl read-error")
 		return
 	}
-	byMetric := map[int32][]*tlstatshouse.MultiItemBytes{}
+	bySig := map[string][]*tlstatshouse.MultiItemBytes{}
 	for i := range rb.Metrics {
-		byMetric[rb.Metrics[i].Metric] = append(byMetric[rb.Metrics[i].Metric], &rb.Metrics[i])
+		it := &rb.Metrics[i]
+		sk := make([]string, len(it.Skeys))
+		for j, b := range it.Skeys {
+			sk[j] = string(b)
+		}
+		sig := tlSig(it.Metric, it.Keys, sk)
+		bySig[sig] = append(bySig[sig], it)
 	}
 	if len(rb.Metrics) != len(rows) {
 		h.Viol("agg-row-count", "bucket of %d rows arrived with %d rows", len(rows), len(rb.Metrics))
 	}
-	// ---- aggregator: the REAL handleSendSourceBucket gets its own decoded copy (it rewrites mapped strings in place)
-	var rb2 tlstatshouse.SourceBucket3Bytes
-	if _, err := rb2.ReadTL1Boxed(wire); err != nil {
+	// ---- aggregator: the REAL handleSendSourceBucket gets the bucket decoded into the reused receive buffer
+	if _, err := recvBuf.ReadTL1Boxed(wire); err != nil {
 		h.Obs("tl read-error")
 		return
 	}
 	hostName := "agenthost"
-	ctx := &bucketCtx{aggHost: tag{S: hostName}, aggRows: map[int32][]*data_model.MultiItem{}}
+	ctx := &bucketCtx{aggHost: tag{S: hostName}, aggRows: map[data_model.Key][]*data_model.MultiItem{}, aggPerMetric: map[int32]int{}, agentMetric: map[int32]int{}}
 	if specs[0].aggHost.I != 0 {
 		hostName = "agentmapped"
 		ctx.aggHost = tag{I: mappings[hostName]}
 	}
-	res := agg.Receive(bucketTs, hostName, rb2)
+	res := agg.Receive(bucketTs, hostName, recvBuf)
 	if res.Err != nil || !res.Longpoll {
 		h.Viol("agg-handler", "handleSendSourceBucket refused a valid bucket: warning=%q err=%v discard=%v", res.Warning, res.Err, res.Discard)
 		return
 	}
+	// string-top keys held by the aggregator right after the handler returned (copied out)
+	type topKeys struct {
+		mi   *data_model.MultiItem
+		keys []string
+	}
+	var held []topKeys
 	for _, mi := range res.Rows {
-		ctx.aggRows[mi.Key.Metric] = append(ctx.aggRows[mi.Key.Metric], mi)
+		tk := topKeys{mi: mi}
+		for k := range mi.Top {
+			tk.keys = append(tk.keys, fmt.Sprintf("%d/%s", k.I, string([]byte(k.S))))
+		}
+		sort.Strings(tk.keys)
+		held = append(held, tk)
+	}
+	// overwrite the receive buffer in place: the same bucket with every string-top tag replaced by Z's of the same length
+	for i := range sb.Metrics {
+		for j := range sb.Metrics[i].Top {
+			sb.Metrics[i].Top[j].Stag = strings.Repeat("Z", len(sb.Metrics[i].Top[j].Stag))
+		}
+	}
+	if _, err := recvBuf.ReadTL1Boxed(sb.WriteTL1Boxed(nil)); err != nil {
+		panic(err)
+	}
+	for _, tk := range held {
+		var now []string
+		for k := range tk.mi.Top {
+			now = append(now, fmt.Sprintf("%d/%s", k.I, k.S))
+		}
+		sort.Strings(now)
+		if fmt.Sprint(now) != fmt.Sprint(tk.keys) {
+			h.Viol("top-key-aliases-receive-buffer", "aggregator row of metric %d: string-top keys %v became %v after the receive buffer was reused", tk.mi.Key.Metric, tk.keys, now)
+		}
+	}
+	for _, mi := range res.Rows {
+		ctx.aggRows[mi.Key] = append(ctx.aggRows[mi.Key], mi)
+		ctx.aggPerMetric[mi.Key.Metric]++
+	}
+	for _, rr := range rows {
+		ctx.agentMetric[rr.key.Metric]++
 	}
 	for i, rr := range rows {
 		h.Op("sel %d", i)
@@ -715,9 +784,9 @@ func runBucket(h *verifx.H, r *verifx.Rng, sh *agent.VerifC02Shard, agg *aggrega
 		for _, op := range rr.centOps {
 			h.Op("%s", op)
 		}
-		items := byMetric[rr.key.Metric]
+		items := bySig[tlSig(rr.key.Metric, rr.key.TagSlice(), rr.key.STagSlice())]
 		if len(items) != 1 {
-			h.Viol("agg-row-count", "row of metric %d arrived %d times", rr.key.Metric, len(items))
+			h.Viol("agg-row-count", "row {%s} is %d times on the wire", keyStr(&rr.key), len(items))
 			continue
 		}
 		mergeRow(h, rng, rr, items[0], ctx)
@@ -799,10 +868,16 @@ func mergeRow(h *verifx.H, rng *rand.Rand, rr *rowRun, it *tlstatshouse.MultiIte
 	default:
 		w = 9
 	}
-	mis := ctx.aggRows[key.Metric]
+	want := wantKey(key)
+	mis := ctx.aggRows[want]
 	if len(mis) != 1 {
 		h.Obs("agg rows=%d", len(mis))
-		h.Viol("agg-row-count", "row of metric %d is held %d times by the aggregator bucket", key.Metric, len(mis))
+		if ctx.aggPerMetric[key.Metric] < ctx.agentMetric[key.Metric] {
+			h.Viol("rows-merged-distinct-keys", "agent sent %d distinct keys of metric %d, the aggregator holds %d rows; no row for key {%s}",
+				ctx.agentMetric[key.Metric], key.Metric, ctx.aggPerMetric[key.Metric], keyStr(&key))
+		} else {
+			h.Viol("agg-key", "agent key {%s} is held %d times by the aggregator bucket", keyStr(&key), len(mis))
+		}
 		return
 	}
 	mi := mis[0]
@@ -825,23 +900,11 @@ func mergeRow(h *verifx.H, rng *rand.Rand, rr *rowRun, it *tlstatshouse.MultiIte
 	}
 	// ---- direct oracle: aggregator row == sf x agent row (strings the aggregator has a mapping for replaced by their ids)
 	o := &oracle{h: h, sf: sf, host: aggHost, hasPct: c.hasPct}
-	want := key
-	for i := range want.STags {
-		if m, ok := mappings[want.STags[i]]; ok && want.STags[i] != "" {
-			want.Tags[i] = m
-			want.STags[i] = ""
-		}
+	if mi.Key != want {
+		h.Viol("agg-key", "agent key {%s} arrived as {%s}", keyStr(&key), keyStr(&mi.Key))
 	}
-	if key.Timestamp != 0 && key.Timestamp <= bucketTs && bucketTs-key.Timestamp <= data_model.BelieveTimestampWindow {
-		if mi.Key != want {
-			h.Viol("agg-key", "agent key {%s} arrived as {%s}", keyStr(&key), keyStr(&mi.Key))
-		}
-	} else {
+	if !(key.Timestamp != 0 && key.Timestamp <= bucketTs && bucketTs-key.Timestamp <= data_model.BelieveTimestampWindow) {
 		h.Stat("oracle.key-outside-window", 1)
-		want.Timestamp = mi.Key.Timestamp
-		if mi.Key != want {
-			h.Viol("agg-key", "agent key {%s} arrived as {%s}", keyStr(&key), keyStr(&mi.Key))
-		}
 	}
 	if len(mi.Top) != len(topSnap) {
 		h.Viol("agg-top-keys", "agent has %d string-top keys, aggregator %d", len(topSnap), len(mi.Top))
@@ -856,6 +919,45 @@ func mergeRow(h *verifx.H, rng *rand.Rand, rr *rowRun, it *tlstatshouse.MultiIte
 		o.compare(tagStr(tk), topSnap[tk], tv)
 	}
 }
+
+// marshalledStr renders Key.MarshalAppend (the identity of the row in MultiItemMap): fixed-width fields decoded back to
+// numbers, the string-tag section as raw bytes.
+func marshalledStr(k *data_model.Key) string {
+	_, b := k.MarshalAppend(nil)
+	n := int(b[8])
+	tags := make([]int32, n)
+	for i := range tags {
+		tags[i] = int32(binary.LittleEndian.Uint32(b[9+4*i:]))
+	}
+	return fmt.Sprintf("mk ts=%d metric=%d tags=%s sb=%s", binary.LittleEndian.Uint32(b[0:]), int32(binary.LittleEndian.Uint32(b[4:])),
+		verifx.List(tags), verifx.Hex(b[9+4*n:]))
+}
+
+// tlSig identifies a row on the wire: metric, trimmed int tags and trimmed string tags WITH their positions.
+func tlSig(metric int32, keys []int32, skeys []string) string {
+	return fmt.Sprintf("%d|%v|%q", metric, keys, skeys)
+}
+
+// wantKey: the key the aggregator must hold for the agent key: mapped string tags moved into the int tag of the same
+// position; a timestamp that is unset or outside the believe window arrives as the bucket time (ts_clamps).
+func wantKey(key data_model.Key) data_model.Key {
+	want := key
+	for i := range want.STags {
+		if m, ok := mappings[want.STags[i]]; ok && want.STags[i] != "" {
+			want.Tags[i] = m
+			want.STags[i] = ""
+		}
+	}
+	if !(key.Timestamp != 0 && key.Timestamp <= bucketTs && bucketTs-key.Timestamp <= data_model.BelieveTimestampWindow) {
+		want.Timestamp = bucketTs
+	}
+	return want
+}
+
+// recvBuf is the ONE SourceBucket3Bytes every bucket is decoded into before it is handed to the handler, as a receive
+// loop reusing its request struct would do; after the handler returned, the buffers are overwritten (poisoned) before the
+// aggregator rows are read back: nothing the aggregator keeps may alias the receive buffer.
+var recvBuf tlstatshouse.SourceBucket3Bytes
 
 // mappings: the string -> int32 pairs the aggregator knows.  hostb -> 7 collides on purpose with the int host tag 7.
 var mappings = map[string]int32{"agentmapped": 1000, "hostb": 7, "bc": 41, "yy": 77}
@@ -872,8 +974,10 @@ func mapTag(t tag) tag {
 }
 
 type bucketCtx struct {
-	aggHost tag
-	aggRows map[int32][]*data_model.MultiItem
+	aggHost      tag
+	aggRows      map[data_model.Key][]*data_model.MultiItem
+	aggPerMetric map[int32]int
+	agentMetric  map[int32]int
 }
 
 type oracle struct {
@@ -989,7 +1093,38 @@ func main() {
 		specs := make([]caseSpec, n)
 		for j := range specs {
 			specs[j] = genCase(h, r)
-			specs[j].key.Metric = int32(100 + 1000*j + r.Intn(1000)) // distinct metrics: rows are matched by metric id
+			specs[j].key.Metric = int32(100 + 1000*j + r.Intn(1000))
+		}
+		// sibling rows: same metric, timestamp and int tags, the same ordered string-tag VALUES in different POSITIONS
+		// (gaps before the last set string tag, shifted by one, first / last array slots, a mapped string)
+		for j := 1; j < n; j++ {
+			if !r.Chance(1, 4) {
+				continue
+			}
+			pat := siblingPatterns[r.Intn(len(siblingPatterns))]
+			base := specs[j-1].key
+			for i := range base.STags {
+				base.STags[i] = ""
+			}
+			sib := base
+			for _, idx := range []int{pat.a[0], pat.a[1], pat.b[0], pat.b[1]} {
+				if idx >= 0 {
+					base.Tags[idx], sib.Tags[idx] = 0, 0
+				}
+			}
+			for v, idx := range pat.a {
+				if idx >= 0 {
+					base.STags[idx] = pat.vals[v]
+				}
+			}
+			for v, idx := range pat.b {
+				if idx >= 0 {
+					sib.STags[idx] = pat.vals[v]
+				}
+			}
+			specs[j-1].key, specs[j].key = base, sib
+			h.Stat("key.sibling-pair", 1)
+			j++ // the next row must not re-pattern this one
 		}
 		runBucket(h, r, sh, agg, specs)
 	})
